@@ -1,6 +1,7 @@
 package openapiv3
 
 import (
+	"encoding/json"
 	"fmt"
 	"strings"
 
@@ -11,7 +12,6 @@ import (
 	"github.com/pb33f/libopenapi/orderedmap"
 	yaml "go.yaml.in/yaml/v4"
 	"google.golang.org/protobuf/compiler/protogen"
-	k8syaml "sigs.k8s.io/yaml"
 
 	"github.com/SebastienMelki/sebuf/internal/annotations"
 )
@@ -970,8 +970,14 @@ func (g *Generator) Render() ([]byte, error) {
 		if err != nil {
 			return nil, fmt.Errorf("failed to marshal to YAML: %w", err)
 		}
-		// Then convert YAML to JSON
-		jsonData, err := k8syaml.YAMLToJSON(yamlData)
+		// Then convert YAML to JSON. Decode with the library that encoded it: a YAML 1.1
+		// converter reads plain scalars such as n, y, on or off as booleans, which turned
+		// a property named "n" into "false".
+		var doc any
+		if unmarshalErr := yaml.Unmarshal(yamlData, &doc); unmarshalErr != nil {
+			return nil, fmt.Errorf("failed to convert YAML to JSON: %w", unmarshalErr)
+		}
+		jsonData, err := json.Marshal(doc)
 		if err != nil {
 			return nil, fmt.Errorf("failed to convert YAML to JSON: %w", err)
 		}
